@@ -124,7 +124,7 @@ def c03_intrinsic(rep, lo, hi):
     """the clauses of C03 that need no model: canonical form, union == the presence the graph itself
     reports through has_interaction, both directions equal (used once a run has diverged from the
     model because of a C01-level defect, so that C03 is still judged on its own terms)"""
-    g = rep.g
+    g = rep.g if hasattr(rep, 'g') else rep
     st, r = call(obs.timelines, g)
     if st != 'ok':
         raise Violation('C03.timelines', 'raises', exc_class(r))
